@@ -8,6 +8,7 @@ pub mod c03;
 pub mod c04;
 pub mod c04_create;
 pub mod c05;
+pub mod c06;
 pub mod c07;
 pub mod c08;
 pub mod c09;
@@ -15,6 +16,7 @@ pub mod c10;
 pub mod c11;
 pub mod c12;
 pub mod c13;
+pub mod c14;
 pub mod c15;
 pub mod c16;
 pub mod c18;
@@ -27,6 +29,7 @@ pub fn run(id: &str, tier: Tier) -> i32 {
         "C03" => c03::run(tier),
         "C04" => c04::run(tier),
         "C05" => c05::run(tier),
+        "C06" => c06::run(tier),
         "C07" => c07::run(tier),
         "C08" => c08::run(tier),
         "C09" => c09::run(tier),
@@ -34,6 +37,7 @@ pub fn run(id: &str, tier: Tier) -> i32 {
         "C11" => c11::run(tier),
         "C12" => c12::run(tier),
         "C13" => c13::run(tier),
+        "C14" => c14::run(tier),
         "C15" => c15::run(tier),
         "C16" => c16::run(tier),
         "C18" => c18::run(tier),
@@ -54,6 +58,7 @@ pub fn replay(id: &str, j: &J) -> i32 {
         "C03" => c03::replay(&case),
         "C04" => c04::replay(&case),
         "C05" => c05::replay(&case),
+        "C06" => c06::replay(&case),
         "C07" => c07::replay(&case),
         "C08" => c08::replay(&case),
         "C09" => c09::replay(&case),
@@ -61,6 +66,7 @@ pub fn replay(id: &str, j: &J) -> i32 {
         "C11" => c11::replay(&case),
         "C12" => c12::replay(&case),
         "C13" => c13::replay(&case),
+        "C14" => c14::replay(&case),
         "C15" => c15::replay(&case),
         "C16" => c16::replay(&case),
         "C18" => c18::replay(&case),
